@@ -77,10 +77,16 @@ def impl(case):
         import pandas as pd
         grid = pd.DataFrame(grid, index=list(case["df_index"]))
     outputs = {k: p for k, p in case["outputs"]}
+    # extrinsic inputs to the r_in variable of some nodes (grid_search prefixes them with 'all/': one series for every copy;
+    # the assembled circuit has hierarchy depth 1, so the loud class D30 -- depth >= 2 -- is not reached from a flat base)
+    def inputs():
+        d = {f"{names[i]}/op/r_in": np.asarray([float(Fr(v)) for v in vals]) for i, vals in case.get("inputs", [])}
+        return d or None
     pyr.reset_pyrates()
     try:
         try:
             res, tab = grid_search(build(case), grid, pmap, step_size=DT, simulation_time=T_END, outputs=dict(outputs),
+                                   inputs=inputs(),
                                    permute_grid=bool(case["permute"]), vectorize=bool(case["vectorize"]), solver="euler",
                                    verbose=False, float_precision="float64")
         except Exception as e:
@@ -99,7 +105,7 @@ def impl(case):
                 ov[t] = Fr(val)
         pyr.reset_pyrates()
         try:
-            df = build(case, ov).run(T_END, DT, outputs=dict(outputs), solver="euler", vectorize=bool(case["vectorize"]),
+            df = build(case, ov).run(T_END, DT, outputs=dict(outputs), inputs=inputs(), solver="euler", vectorize=bool(case["vectorize"]),
                                      verbose=False, clear=True, float_precision="float64")
             sep.append(frame(df))
         finally:
@@ -160,6 +166,8 @@ def gen_case(rng):
         outs = rng.sample(range(nn), rng.randint(1, 2))
         outputs = [[["u", "v"][j], f"{NAMES[i]}/op/x"] for j, i in enumerate(outs)]
     case = dict(nodes=nodes, edges=edges, pmap=pmap, grid=grid, permute=permute, outputs=outputs, vectorize=rng.random() < 0.6)
+    if rng.random() < 0.5:                       # extrinsic input series (non-constant, dyadic) on 1-2 nodes
+        case["inputs"] = [[i, [dy(rng, -2, 2, 2) for _ in range(int(round(T_END / DT)))]] for i in rng.sample(range(nn), rng.randint(1, min(2, nn)))]
     if rng.random() < 0.45:                      # two nodes with identical values, held as one shared NodeTemplate object
         i, j = rng.sample(range(nn), 2)
         nodes[j][1:] = nodes[i][1:]
@@ -197,7 +205,7 @@ Definition col_eqb (a b : col) := leqb String.eqb (fst a) (fst b) && leqb qeqb (
 (* observed: None = ValueError;  table rows, index names, columns of the DataFrame *)
 Definition observed := option (list (list Qc) * list string * list col).
 Record gcase := { base : circ; pm : list (list target); vals : list (list Qc); perm : bool; steps : nat;
-                  nodes : list string; reqs : list request; ob : observed; labs : option (list nat);
+                  nodes : list string; reqs : list request; ob : observed; labs : option (list nat); vec : bool;
                   sep_grid : list col; sep_runs : list col }.
 Definition dt : Qc := mkq 1 8.
 Definition cname (r : nat) : string := "base_" ++ String (Ascii.ascii_of_nat (48 + r / 10)) (String (Ascii.ascii_of_nat (48 + r mod 10)) "").
@@ -216,7 +224,7 @@ Definition column_of (c : gcase) (R : nat) (states : nat -> nat -> nat -> Qc) (v
 Definition expected (c : gcase) (rows : list (list Qc)) (states : nat -> nat -> nat -> Qc) : observed :=
   let R := List.length rows in
   let reqs' := map (fun q : request => let '(key, (pat, ov)) := q in (key, ("all" :: pat, ov))) (reqs c) in
-  Some (rows, map cname' (row_labels c R), map (fun lv => (fst lv, column_of c R states (snd lv))) (spec_columns (union_tree c R) DictForm reqs')).
+  Some (rows, map cname' (row_labels c R), map (fun lv => (fst lv, column_of c R states (fst (snd lv)))) (spec_columns (union_tree c R) [] DictForm reqs')).
 Definition obs_eqb (a b : observed) : bool :=
   match a, b with
   | None, None => true
@@ -240,6 +248,10 @@ Definition specO (c : gcase) : observed :=
 Definition okI (c : gcase) := obs_eqb (implO c) (ob c).
 Definition okS (c : gcase) := obs_eqb (specO c) (ob c).
 Definition okSep (c : gcase) := leqb col_eqb (sep_grid c) (sep_runs c).
+(* guard of the known loud class D32 (C04): with vectorize=True one input node projecting to >= 10 copies raises IndexError *)
+Definition n_rows (c : gcase) : nat := match linearize (mkq 0 1) (vals c) (perm c) with Some l => List.length l | None => 0 end.
+Definition g_fanout (c : gcase) : bool :=
+  negb (vec c && existsb (fun u => match u with [] => false | _ => true end) (uin (base c)) && Nat.leb 10 (n_rows c)).
 """
 
 def cstrs(l):
@@ -249,7 +261,9 @@ def ccirc(case):
     ks = clist([cq(k) for _, k, _, _ in case["nodes"]]); cs = clist([cq(c) for _, _, c, _ in case["nodes"]])
     x0 = clist([cq(x) for _, _, _, x in case["nodes"]])
     es = clist([f"({cnat(s)}, {cnat(t)}, {cq(w)})" for s, t, w in case["edges"]])
-    return f"{{| ks := {ks}; cs := {cs}; x0 := {x0}; edges := {es} |}}"
+    ins = dict((i, vals) for i, vals in case.get("inputs", []))
+    uin = clist([clist([cq(v) for v in ins.get(i, [])]) for i in range(len(case["nodes"]))])
+    return f"{{| ks := {ks}; cs := {cs}; x0 := {x0}; edges := {es}; uin := {uin} |}}"
 
 def ccols(cols):
     return clist([f"({cstrs(lab)}, {clist([cq(v) for v in vals])})" for lab, vals in cols])
@@ -279,7 +293,7 @@ def coq_case(case, out):
         parts = p.split("/")
         reqs.append(f"({cstr(key)}, ({cstrs(parts[:-2])}, ({cstr(parts[-2])}, {cstr(parts[-1])})))")
     if "raised" in out:
-        ob, steps, g, s = "None", 0, [], []
+        ob, steps, g, s = "None", int(round(T_END / DT)), [], []
     else:
         assert out["columns"] == key_order, (out["columns"], key_order)
         rows = clist([clist([cq(v) for v in r]) for r in out["rows"]])
@@ -288,21 +302,21 @@ def coq_case(case, out):
         g, s = sep_views(case, out)
     return (f"{{| base := {ccirc(case)}; pm := {pm}; vals := {vals}; perm := {cbool(case['permute'])}; steps := {cnat(steps)}; "
             f"nodes := {cstrs([n for n, *_ in case['nodes']])}; reqs := {clist(reqs)}; ob := {ob}; "
-            f"labs := {'None' if case.get('df_index') is None else '(Some ' + clist([cnat(i) for i in case['df_index']]) + ')'}; "
+            f"vec := {cbool(case['vectorize'])}; labs := {'None' if case.get('df_index') is None else '(Some ' + clist([cnat(i) for i in case['df_index']]) + ')'}; "
             f"sep_grid := {ccols(g)}; sep_runs := {ccols(s)} |}}")
 
 def model_compare(ctx, cases, outs, tag):
-    badI, badS, badSep = [], [], []
+    badI, badS, badSep, gfan = [], [], [], []
     shard = 25
     for s in range(0, len(cases), shard):
         terms = [coq_case(c, o) for c, o in zip(cases[s:s + shard], outs[s:s + shard])]
         body = ("Definition cases : list gcase := " + clist(terms) + ".\n"
                 "Eval vm_compute in (mismatches okI cases).\nEval vm_compute in (mismatches okS cases).\n"
-                "Eval vm_compute in (mismatches okSep cases).\n")
+                "Eval vm_compute in (mismatches okSep cases).\nEval vm_compute in (mismatches g_fanout cases).\n")
         ls = parse_nat_lists(coq_eval(ctx, f"c17_{tag}_{s}", HEADER, body))
-        assert len(ls) == 3, ls
-        badI += [s + i for i in ls[0]]; badS += [s + i for i in ls[1]]; badSep += [s + i for i in ls[2]]
-    return badI, badS, badSep
+        assert len(ls) == 4, ls
+        badI += [s + i for i in ls[0]]; badS += [s + i for i in ls[1]]; badSep += [s + i for i in ls[2]]; gfan += [s + i for i in ls[3]]
+    return badI, badS, badSep, gfan
 
 def model_outputs(ctx, case, out):
     body = f"Definition c : gcase := {coq_case(case, out)}.\nEval vm_compute in (implO c, specO c, okSep c).\n"
@@ -312,7 +326,7 @@ def model_outputs(ctx, case, out):
         return f"(model evaluation failed: {e})"
 
 def usable(out):
-    return isinstance(out, dict) and "err" not in out and not ("raised" in out and out["raised"] != "ValueError")
+    return isinstance(out, dict) and "err" not in out and not ("raised" in out and out["raised"] not in ("ValueError", "IndexError"))
 
 # ---------------------------------------------------------------------------------------------- check
 def check(ctx):
@@ -327,15 +341,21 @@ def check(ctx):
     outs = run_impl(ctx, "c17", "impl", cases, per_case_timeout=300)
     crashed = [i for i, o in enumerate(outs) if not usable(o)]
     good = [i for i in range(len(cases)) if i not in crashed]
-    badI, badS, badSep = model_compare(ctx, [cases[i] for i in good], [outs[i] for i in good], "main")
+    badI, badS, badSep, gfan = model_compare(ctx, [cases[i] for i in good], [outs[i] for i in good], "main")
     badI = [good[i] for i in badI]; badSep = [good[i] for i in badSep]
+    # the loud class D32 is recognised by its exception; anything else outside the guard is judged like any other case
+    gv = {good[i]: ["input_fanout_lt_10"] for i in gfan if outs[good[i]].get("raised") == "IndexError"}
     badS = sorted(set(good[i] for i in badS) | set(badSep))
     ctx.note(f"E1: {len(cases)} sweeps, {sum(nrows(c) for c in cases)} rows; sweep-vs-Impl mismatches {len(badI)}, sweep-vs-Spec mismatches "
              f"{len(badS)} (of which sweep-vs-separate-real-runs {len(badSep)}), unusable outcomes {len(crashed)}")
     def show(c):
         out = run_impl(ctx, "c17", "impl", [c], nworkers=1, per_case_timeout=300)[0]
         return dict(implementation_output=out, model_output=model_outputs(ctx, c, out) if usable(out) else None)
+    def witness_check(f):
+        out = run_impl(ctx, "c17", "impl", [f["witness"]], nworkers=1, per_case_timeout=300)[0]
+        return isinstance(out, dict) and out.get("raised") == "IndexError"
     conclude(ctx, cases=cases, impl_out=outs, bad_spec=badS, bad_impl=badI, crashed=crashed, problem=problem, show=show,
+             guard_viol=gv, witness_check=witness_check,
              spec_name="Grid.grid_spec (every row of the returned table simulated on its own) and the separate real runs",
              impl_name="Grid.grid_impl (assembled network)")
     nt = {canon(c) for c in cases if nontrivial(c)}
@@ -344,19 +364,21 @@ def check(ctx):
                 edge_keys=sum(1 for c in cases if any(k == "edges" for _, k, _ in c["pmap"])),
                 multi_target_keys=sum(1 for c in cases if any(len(t) > 1 for t in targets(c).values())),
                 vectorized=sum(1 for c in cases if c["vectorize"]), rows=sum(nrows(c) for c in cases),
-shared_node_templates=sum(1 for c in cases if c.get("share")),
+with_inputs=sum(1 for c in cases if c.get("inputs")),
+                shared_node_templates=sum(1 for c in cases if c.get("share")),
                 dataframe_grids_with_permuted_index=sum(1 for c in cases if c.get("df_index") is not None),
                 wildcard_outputs=sum(1 for c in cases if c["outputs"][0][1].startswith("all")))
     write_evidence(ctx, evaluations=len(cases), distinct_nontrivial=len(nt),
                    rule="random linear circuits (2-3 nodes, 1-3 edges, dyadic k, c, x0, weights) x random sweeps: 1-3 keys with disjoint target "
                         "sets (node parameters op/k, op/c on 1-3 nodes, both vars per key, edge weights on 1-2 edges), equal-length or permuted "
                         "grids (a few of unequal length without permute -> ValueError), zipped grids also passed as a DataFrame whose integer index "
-                        "is a permutation, nodes with identical values held as one shared NodeTemplate object, outputs by node name or 'all', vectorize on/off; "
+                        "is a permutation, half of the sweeps with non-constant extrinsic input series on 1-2 nodes (also on nodes with incoming edges), nodes with identical values held as one shared NodeTemplate object, outputs by node name or 'all', vectorize on/off; "
                         "non-trivial = >= 2 rows; distinct = distinct canonical JSON",
                    samples=[cases[0] if cases else None],
                    extra=dict(input_distribution=hist, impl_vs_model_mismatches=len(badI), impl_vs_spec_mismatches=len(badS),
                               sweep_vs_separate_runs_mismatches=len(badSep)),
                    trusted_base=["float64 Euler on dyadic data (dt = 1/8, 8 steps, quarter-integer parameters) is exact (checked: every value is compared as an exact rational)",
                                  "the separate runs use circuits built directly from the values of the returned table (not adapt_circuit)"],
-                   assumptions=["inputs= is left out: grid_search(inputs=...) on the assembled (hierarchical) circuit raises AttributeError (D30, recorded under C08)",
+                   assumptions=["inputs= is exercised on flat base circuits only: the assembled circuit then has hierarchy depth 1; a base circuit that is itself "
+                                "hierarchical gives depth >= 2 and any input raises AttributeError (D30, recorded under C08)",
                                 "target sets of different grid keys are disjoint", "the model's node dynamics are linear (x' = -k x + c + weighted inputs)"])
